@@ -56,6 +56,14 @@ func (x *Exec) enterLoop(st *State, fr *Frame, from, to *ssa.BasicBlock, li *loo
 		}
 		phis = append(phis, phi)
 	}
+	// env is shared between sequentially explored paths: remember the header values so that the
+	// back-edge evaluation below does not leak into sibling paths
+	savedEnv := make([]Value, len(phis))
+	savedHas := make([]bool, len(phis))
+	for i, phi := range phis {
+		savedEnv[i], savedHas[i] = fr.env[phi]
+	}
+	savedNames := cloneNames(fr.names)
 	for i, phi := range phis {
 		fr.env[phi] = vals[i]
 		x.bindPhiName(fr, phi, vals[i])
@@ -83,6 +91,14 @@ func (x *Exec) enterLoop(st *State, fr *Frame, from, to *ssa.BasicBlock, li *loo
 			x.addObl(fmt.Sprintf("loop%d.step", k), cl.Tag, cl.Text, st, evalInv(cl), cl.Props)
 		}
 		x.covers[fmt.Sprintf("loop%d.backedge", k)] = true
+		for i, phi := range phis {
+			if savedHas[i] {
+				fr.env[phi] = savedEnv[i]
+			} else {
+				delete(fr.env, phi)
+			}
+		}
+		fr.names = savedNames
 		return nil
 	}
 	for _, cl := range invs {
@@ -150,6 +166,7 @@ func (x *Exec) havocLoop(st *State, fr *Frame, header *ssa.BasicBlock, li *loopI
 	cells := map[int]bool{}
 	ghosts := map[string]bool{}
 	all := false
+	x.dynCtxArgs = nil
 	for b := range li.body[header] {
 		for _, in := range b.Instrs {
 			switch ins := in.(type) {
@@ -205,6 +222,13 @@ func (x *Exec) havocLoop(st *State, fr *Frame, header *ssa.BasicBlock, li *loopI
 		x.havocGhost(st, nil, true)
 	} else if len(ghosts) > 0 {
 		x.havocGhost(st, ghosts, false)
+	}
+	for _, a := range x.dynCtxArgs {
+		if v, ok := fr.env[a]; ok {
+			if cv, ok := v.(CtxV); ok {
+				x.routerHavoc(st, cv.H)
+			}
+		}
 	}
 	if all || len(ghosts) > 0 {
 		for _, s := range st.stores {
@@ -297,6 +321,18 @@ func (x *Exec) callWrites(cc *ssa.CallCommon, seen map[*ssa.Function]bool) (map[
 		}
 		if mc, ok := cc.Value.(*ssa.MakeClosure); ok {
 			return x.fnWrites(mc.Fn.(*ssa.Function), seen)
+		}
+		// dynamic call (routed message handler, decoder, ante chain): its effect is confined to the context
+		// handle it receives; recorded for the caller to havoc that handle
+		for _, a := range cc.Args {
+			if isCtxType(a.Type()) {
+				x.dynCtxArgs = append(x.dynCtxArgs, a)
+				return out, false
+			}
+		}
+		if sig, ok := cc.Value.Type().Underlying().(*types.Signature); ok && sig.Params().Len() <= 1 {
+			// decoder-like pure function
+			return out, false
 		}
 		return out, true
 	}
